@@ -5,6 +5,9 @@ import z3, time
 from vlib import py2smt as T, floatcut
 from stubs.fakeread import FakeRead
 from spec import c10 as S
+from vlib import astcut
+from stubs.fakebam import FakePysamModule
+import collections, io, contextlib
 import singlecellmultiomics.bamProcessing.bamToCountTable as CT
 import singlecellmultiomics.utils.binning as UB
 
@@ -105,6 +108,36 @@ def _l3_assign(p: int, b: int, s: int, keep: bool, reflen: int) -> bool:
     return S.check_assign_binned(FakeRead, CT.assignReads, p, b, s, keep, reflen) is None
 
 
+PYS = FakePysamModule()
+# the per-file loop of create_count_table (the second `for bamFile in args.alignmentfiles` of that function), cut from the live source
+_file_loop = astcut.cut_for(CT, 'create_count_table', 'args.alignmentfiles', index=1,
+                            params=('args', 'countTable', 'joinFeatures', 'featureTags', 'sampleTags', 'blacklist_dic', 'pysam'), result='countTable',
+                            from_stmt='assigned = 0', name='_file_loop')
+
+
+def _l4_two_files(LA: int, LB: int, pa: int, pb: int, b: int, s: int, order: bool) -> bool:
+    """
+    pre: 1 <= LA <= 12 and 1 <= LB <= 12
+    pre: 0 <= pa <= 12 and 0 <= pb <= 12
+    pre: 1 <= s <= b <= 3
+    post: _
+    """
+    # one call over two BAM files whose contig chr1 has different lengths: the out-of-bounds rule uses the length of the file a read comes from
+    def rd(p, cell):
+        return FakeRead(query_name='q', reference_name='chr1', reference_start=p, cigartuples=[(0, 1)], seq='A', qual='I', tags={'SM': cell, 'DS': p})
+    PYS.files = {'a.bam': dict(references=['chr1'], lengths=[LA], reads=[rd(pa, 'cellA')]), 'b.bam': dict(references=['chr1'], lengths=[LB], reads=[rd(pb, 'cellB')])}
+    args = S.make_args(b, s, False, 0, alignmentfiles=(['a.bam', 'b.bam'] if order else ['b.bam', 'a.bam']), contig=None, head=None)
+    table = collections.defaultdict(collections.Counter)
+    with contextlib.redirect_stdout(io.StringIO()):
+        _file_loop(args, table, True, ['DS'], ['SM'], None, PYS)
+    for cell, p, L in (('cellA', pa, LA), ('cellB', pb, LB)):
+        exp = {w: 1 for w in S.windows(p, b, s) if w[0] >= 0 and w[1] <= L}
+        got = {k: v for k, v in table.get((cell,), {}).items() if v != 0}
+        if got != exp:
+            return False
+    return True
+
+
 _T = {'quick': 150, 'thorough': 900}
 LEMMAS = [
     dict(name='L1_sliding_unbounded', run='l1_sliding_e2', engine='E2', timeout=_T, replay='replay.C10:replay',
@@ -115,12 +148,14 @@ LEMMAS = [
          cases={'quick': [dict(id='b%d' % b, pre=['b == %d' % b]) for b in (1, 2, 3, 4)]}),
     dict(name='L3_assign_binned', fn='_l3_assign', engine='E1', timeout=_T, replay='replay.C10:replay',
          cases={'quick': [dict(id='b%d' % b, pre=['b == %d' % b]) for b in (1, 2, 3, 4)]}),
+    dict(name='L4_two_files_contig_lengths', fn='_l4_two_files', engine='E1', timeout=_T, replay='replay.C10:replay_two_files',
+         cases={'quick': [dict(id='b%d_s%d' % (b, s_), pre=['b == %d' % b, 's == %d' % s_, 'LA <= 5', 'LB <= 5', 'pa <= 5', 'pb <= 5']) for b in (1, 2, 3) for s_ in range(1, b + 1)]}),
 ]
 
 PROPERTY = dict(
     functions=['bamToCountTable.coordinate_to_sliding_bin_locations', 'bamToCountTable.coordinate_to_bins',
                'utils.binning.coordinate_to_sliding_bin_locations', 'utils.binning.coordinate_to_bins',
-               'bamToCountTable.assignReads (binning branch) + read_should_be_counted + readTag/metaFromRead'],
+               'bamToCountTable.assignReads (binning branch) + read_should_be_counted + readTag/metaFromRead', 'bamToCountTable.create_count_table: per-file loop (AST cut)'],
     bounds=dict(L1='all integers p >= 0, 1 <= s <= b (unbounded, z3 Int/Real; NIA)', L2_L3='p 0..12, 1 <= s <= b <= 4, contig length 1..14, keepOverBounds symbolic'),
     outside=['pandas export of the table', 'negative coordinates', 'split_double_BAM (calls coordinate_to_bins(p,b,b)[0], covered through L1/L2)'],
     assumptions=['float cut: int(np.ceil(A/B)) = -((-A)//B), int(np.floor(A/B)) = A//B (lemma F: exact for |A| < 2**52, 0 < B < 2**31); E2 treats float division as real division',
